@@ -5,7 +5,7 @@
 # Prints one line per seeded change; exit 0 iff every one was detected.
 set -u
 cd "$(dirname "$(readlink -f "$0")")/.."
-IDS=${@:-$(ls seeded)}
+IDS=${@:-$(ls -d seeded/*/ | xargs -n1 basename)}
 RC=0
 for ID in $IDS; do
   PROP=$(python3 -c "import json;print(json.load(open('seeded/$ID/meta.json')).get('property','$ID'[:3]))" 2>/dev/null || echo ${ID:0:3})
